@@ -61,7 +61,8 @@ def octet_helpers(modname):
 
 
 LEAN_TY = {'int': 'Int', 'bool': 'Bool', 'tup': 'Py.Tup', 'tups': 'List Py.Tup', 'fun:tup->tup': '(Py.Tup → Py.M Py.Tup)', 'unit': 'Unit', 'fun:int->unit': '(Int → Py.M Unit)',
-           'pairs': 'List (Py.Tup × Py.Tup)', 'pair': '(Py.Tup × Py.Tup)', 'bio': 'Py.BytesIO', 'otup': 'Option Py.Tup'}
+           'pairs': 'List (Py.Tup × Py.Tup)', 'pair': '(Py.Tup × Py.Tup)', 'bio': 'Py.BytesIO', 'otup': 'Option Py.Tup', 'rs': 'Int',
+           'fun:int,int->otup': '(Int → Int → Option Py.Tup)'}
 
 
 def find_function(tree, path):
@@ -185,6 +186,8 @@ def tr_expr(cx, env, e):
     if isinstance(e, ast.Name):
         if e.id in env:
             return e.id, env[e.id], []
+        if e.id in cx.consts:
+            return lit(cx.consts[e.id]), 'int', []
         if e.id == 'null' and 'null' in cx.octets:
             return '([] : Py.Tup)', 'tup', []
         raise Unsupported('unbound name %s' % e.id)
@@ -223,6 +226,34 @@ def tr_expr(cx, env, e):
                 t = cx.tmp()
                 return t, 'int', pn + pw + ['let (%s, %s) ← Py.bioSeek %s %s %s' % (t, b, b, n, w)]
         raise Unsupported('BytesIO method %s' % unparse(e))
+    if (isinstance(e, ast.Call) and isinstance(e.func, ast.Attribute) and isinstance(e.func.value, ast.Name)
+            and env.get(e.func.value.id) == 'rs'):
+        # a stream the function was handed: its position is threaded through, what read(n) answers at a position is a
+        # function parameter of the kernel
+        nm = e.func.value.id
+        rd = cx.spec['streams'][nm]
+        cx.expr_params[rd] = 'fun:int,int->otup'
+        if e.func.attr == 'read' and len(e.args) == 1:
+            n, tn, pn = tr_expr(cx, env, e.args[0])
+            if tn == 'int':
+                t = cx.tmp()
+                return t, 'otup', pn + ['let (%s, %s) := Py.rsRead %s %s %s' % (t, nm, rd, nm, n)]
+        if e.func.attr == 'seek' and len(e.args) == 2:
+            n, tn, pn = tr_expr(cx, env, e.args[0])
+            w, tw, pw = tr_expr(cx, env, e.args[1])
+            if tn == tw == 'int':
+                t = cx.tmp()
+                return t, 'int', pn + pw + ['let (%s, %s) ← Py.rsSeek %s %s %s' % (t, nm, nm, n, w)]
+        raise Unsupported('stream method %s' % unparse(e))
+    if isinstance(e, ast.Call) and isinstance(e.func, ast.Name) and e.func.id == 'min' and len(e.args) == 2 and 'min' not in env:
+        a, ta, pa = tr_expr(cx, env, e.args[0])
+        b, tb, pb = tr_expr(cx, env, e.args[1])
+        if ta == tb == 'int':
+            return '(Py.imin %s %s)' % (a, b), 'int', pa + pb
+    if isinstance(e, ast.List):
+        parts = [need_tup(cx, *tr_expr(cx, env, x)) for x in e.elts]
+        if all(p_[1] == 'tup' for p_ in parts):
+            return '[' + ', '.join(p_[0] for p_ in parts) + ']', 'tups', sum((p_[2] for p_ in parts), [])
     if isinstance(e, ast.Call) and dotted(e.func) == 'io.BytesIO' and len(e.args) <= 1 and not e.keywords:
         if e.args:
             a, ta, pa = need_tup(cx, *tr_expr(cx, env, e.args[0]))
@@ -351,6 +382,8 @@ def tr_expr(cx, env, e):
             return acc, 'int', pre
         if parts[0][1] == 'bool' and all(p[1] == 'bool' or p[1] == 'int' for p in parts):
             # mixed: only meaningful as a condition
+            return '(' + (' && ' if isand else ' || ').join(as_bool(p[0], p[1]) for p in parts) + ')', 'bool', pre
+        if not pre and all(p[1] in ('bool', 'int', 'tup', 'otup') for p in parts):
             return '(' + (' && ' if isand else ' || ').join(as_bool(p[0], p[1]) for p in parts) + ')', 'bool', pre
         raise Unsupported('boolop %s' % unparse(e))
     if isinstance(e, ast.IfExp):
@@ -562,6 +595,7 @@ def as_bool(a, ta):
 
 STATE_ATTRS = {}
 STATE_CALLS = {}
+STREAM_NAMES = set()
 
 
 def assigned(stmts):
@@ -580,6 +614,12 @@ def assigned(stmts):
         else:
             raise Unsupported('assignment target %s' % unparse(t))
     for s in stmts:
+        if not isinstance(s, (ast.If, ast.While, ast.For, ast.Try)):
+            for n_ in ast.walk(s):
+                if (isinstance(n_, ast.Call) and isinstance(n_.func, ast.Attribute) and isinstance(n_.func.value, ast.Name)
+                        and ((n_.func.value.id in STREAM_NAMES and n_.func.attr in ('read', 'seek'))
+                             or (n_.func.attr == 'append' and isinstance(s, ast.Expr) and s.value is n_))):
+                    add(n_.func.value.id)
         if STATE_ATTRS and not isinstance(s, (ast.If, ast.While, ast.For, ast.Try)):
             for n_ in ast.walk(s):
                 if (isinstance(n_, ast.Call) and isinstance(n_.func, ast.Attribute) and n_.func.attr in ('read', 'write', 'seek')
@@ -726,8 +766,20 @@ def tr_block(cx, env, stmts, ret_ty, tail):
             and state_var(cx, s.value.func.value)):
         v, tv, pre = tr_expr(cx, env, s.value)      # a method call on a state object for its effect
         return pre + cont(env)
-    if isinstance(s, ast.Return) and cx.spec.get('state_out'):
-        outs = ['self_' + a_ for a_ in cx.spec['state_out']]
+    if (isinstance(s, ast.Expr) and isinstance(s.value, ast.Call) and isinstance(s.value.func, ast.Attribute)
+            and isinstance(s.value.func.value, ast.Name) and env.get(s.value.func.value.id) == 'rs'):
+        v, tv, pre = tr_expr(cx, env, s.value)
+        return pre + cont(env)
+    if (isinstance(s, ast.Expr) and isinstance(s.value, ast.Call) and isinstance(s.value.func, ast.Attribute)
+            and s.value.func.attr == 'append' and isinstance(s.value.func.value, ast.Name)
+            and env.get(s.value.func.value.id) == 'tups' and len(s.value.args) == 1):
+        nm = s.value.func.value.id
+        v, tv, pre = need_tup(cx, *tr_expr(cx, env, s.value.args[0]))
+        if tv != 'tup':
+            raise Unsupported('append of %s' % tv)
+        return pre + ['let %s : List Py.Tup := %s ++ [%s]' % (nm, nm, v)] + cont(env)
+    if isinstance(s, ast.Return) and (cx.spec.get('state_out') or cx.spec.get('state_out_names')):
+        outs = ['self_' + a_ for a_ in cx.spec.get('state_out', [])] + list(cx.spec.get('state_out_names', []))
         if s.value is None:
             return ['pure (%s)' % ', '.join(outs)]
         v, tv, pre = tr_expr(cx, env, s.value)
@@ -1056,6 +1108,35 @@ class StreamReads(ast.NodeTransformer):
         return self.generic_visit(node)
 
 
+class OneTurn(ast.NodeTransformer):
+    def __init__(self, value_name):
+        self.value_name = value_name
+
+    def rewrite(self, body):
+        out = []
+        for st in body:
+            r = self.visit(st)
+            out.extend(r if isinstance(r, list) else [r])
+        return out
+
+    def generic_visit(self, node):
+        if isinstance(node, (ast.While, ast.For)):
+            return node                       # a `break` inside an inner loop belongs to that loop
+        for field in ('body', 'orelse'):
+            v = getattr(node, field, None)
+            if isinstance(v, list):
+                setattr(node, field, self.rewrite(v))
+        return node
+
+    def visit_Expr(self, node):
+        if isinstance(node.value, ast.Yield) and 'SubstrateUnderrunError' in unparse(node.value):
+            return ast.Return(value=ast.Constant(value=None))
+        return node
+
+    def visit_Break(self, node):
+        return ast.Return(value=ast.Name(id=self.value_name, ctx=ast.Load()))
+
+
 def slice_body(fn, spec):
     body = list(fn.body)
     if 'block' in spec:
@@ -1072,6 +1153,11 @@ def slice_body(fn, spec):
         body = out
     if 'stream' in spec:
         body = [ast.parse('pos_ = 0').body[0]] + StreamReads(spec['stream']).rewrite(body)
+    if 'iteration' in spec:
+        # one turn of a generator's `while True:` loop: `yield <underrun>` hands the underrun out and the loop comes round again
+        # (the next turn starts from the same code) - the turn answers None; `break` leaves the loop for the final
+        # `yield <value>` - the turn answers that value
+        body = OneTurn(spec['iteration']).rewrite(body)
     if 'after' in spec:
         idx = None
         for i, s in enumerate(body):
@@ -1126,7 +1212,9 @@ def translate(spec):
     for a_, t_ in spec.get('state', {}).items():
         env['self_' + a_] = t_
         params.append(('self_' + a_, t_))
-    if spec.get('state_out') and not terminates(body):
+    STREAM_NAMES.clear()
+    STREAM_NAMES.update(spec.get('streams', {}))
+    if (spec.get('state_out') or spec.get('state_out_names')) and not terminates(body):
         body = body + [ast.Return(value=None)]
     digest = hashlib.sha256('\n'.join(ast.dump(s) for s in body).encode()).hexdigest()[:16]
     lines = tr_block(cx, env, body, spec['returns'], None)
